@@ -851,3 +851,7 @@ fire('src1-strip-eval-input', ['C01', 'C06'], ['SRC-1'], 'the text of an eval_in
 fire('brk1-with-items-break', ['C14'], ['BRK-1'], 'WithStmt.get_defined_names stops at the first item that is not a with_item node (an item without `as` is a bare expression)',
      (PYTREE, "        for with_item in self.children[1:-2:2]:\n            # Check with items for 'as' names.\n            if with_item.type == 'with_item':\n                names += _defined_names(with_item.children[2], include_setitem)\n",
       "        for with_item in self.children[1::2]:\n            if with_item.type != 'with_item':\n                break\n            names += _defined_names(with_item.children[2], include_setitem)\n"))
+
+# round 14: the parser renders the tree it is recovering (rt14-C02)
+fire('par15-get-code-in-recovery', ['C02'], ['PAR-15'], 'the recovery path evaluates node.get_code() (as the argument of a debug log call): three frames per nesting level',
+     (PYPARSER, "            node = tree.PythonErrorNode(all_nodes)\n", "            node = tree.PythonErrorNode(all_nodes)\n            self._last_error_text = node.get_code(include_prefix=False)[:40]\n"))
